@@ -161,6 +161,35 @@ def nested_quantifiers(site):
     return pr
 
 
+def existential_over_subtype_equated_to_supertype_term(site):
+    """Exists (S v) (phi and v == t) where S is a strict subtype of T and t is an object of T that is NOT in S (or a T-valued fluent): no elimination of v
+    by substitution is possible (t is not a legal value of v); the quantifier has to be kept or expanded over the objects of S"""
+    pr = Problem(f"existential_over_subtype_{site}")
+    T_, = (UserType("Thing"),)
+    S_ = UserType("Small", T_)
+    o0, s0 = Object("o0", T_), Object("s0", S_)
+    pr.add_objects([o0, s0])
+    p, done = Fluent("p", BoolType(), x=T_), Fluent("done", BoolType())
+    pr.add_fluent(p, default_initial_value=True)
+    pr.add_fluent(done, default_initial_value=False)
+    v = Variable("v", S_)
+    ex_obj = Exists(And(p(o0), Equals(v, o0)), v)          # false: no Small object is o0
+    ex_self = Exists(And(p(v), Equals(v, s0)), v)           # p(s0)
+    a = InstantaneousAction("go", x=T_)
+    if site == "precondition":
+        a.add_precondition(ex_self)
+        never = InstantaneousAction("never", x=T_)
+        never.add_precondition(Exists(And(p(never.parameter("x")), Equals(v, o0)), v))      # directly a precondition, with a parameter next to the equality
+        never.add_effect(done, True)
+        pr.add_action(never)
+    a.add_effect(done, True, Not(ex_obj) if site == "effect_condition" else True)
+    pr.add_action(a)
+    pr.add_goal(done)
+    if site == "goal":
+        pr.add_goal(Not(ex_obj))
+    return pr
+
+
 def boolean_copy_assignment(src0, goal):
     """a Boolean fluent assigned the value of ANOTHER fluent (not a constant) whose negation a later action or the goal needs: the negative
     conditions remover has to keep the companion of the assigned fluent equal to the negated value"""
@@ -427,6 +456,9 @@ def crafted_cases():
             out.append(("crafted:quantified_variable_named_like_fresh", (CK.USERTYPE_FLUENTS_REMOVING,), quantified_variable_named_like_fresh(vn, m)))
     for names in (("a", "not_a", "a_0"), ("a", "a_0", "not_a"), ("a_0", "not_a", "a"), ("a", "not_a", "not_a_0"), ("not_a", "a")):
         out.append(("crafted:colliding_negation_names", (CK.NEGATIVE_CONDITIONS_REMOVING,), colliding_negation_names(names)))
+    for site in ("precondition", "effect_condition", "goal"):
+        out.append(("crafted:existential_over_subtype", (CK.QUANTIFIERS_REMOVING,), existential_over_subtype_equated_to_supertype_term(site)))
+    out.append(("crafted:existential_over_subtype+grounding", (CK.GROUNDING,), existential_over_subtype_equated_to_supertype_term("precondition")))
     for site in ("precondition", "effect_condition", "goal"):
         out.append(("crafted:nested_quantifiers", (CK.QUANTIFIERS_REMOVING,), nested_quantifiers(site)))
     out.append(("crafted:nested_quantifiers+grounding", (CK.QUANTIFIERS_REMOVING, CK.GROUNDING), nested_quantifiers("precondition")))
